@@ -136,7 +136,11 @@ func NewEnvManager(tm *task.Manager, incomingEventCh chan event.Event) *Manager 
 
 						instance.mu.Lock()
 						close(thisEnvCh)
-						delete(instance.pendingTeardownsCh, typedEvent.GetEnvironmentId())
+						// the teardown we have just unblocked may already have registered the channel for its
+						// next release round: only forget the channel we have served
+						if instance.pendingTeardownsCh[typedEvent.GetEnvironmentId()] == thisEnvCh {
+							delete(instance.pendingTeardownsCh, typedEvent.GetEnvironmentId())
+						}
 						instance.mu.Unlock()
 
 					} else {
